@@ -93,7 +93,8 @@ class C05(Prop):
                 c, st, en = rng.choice(secs)
                 for (s, e) in ((st, en), (max(st - 1, 0), st + 1), (en - 1, en + 1), (0, en + 5), (st, st + 100000)):
                     qs.append([c, s, e])
-            yield sx([9, b, secs, qs[:40], rng.choice([4, 16, 64])]), [f"b={b}", "public-api", "short-reads", "zoom-then-main"]
+            desc = 1 if (nchrom > 1 and i % 3 == 0) else 0
+            yield sx([9, b, secs, qs[:40], rng.choice([4, 16, 64]), desc]), [f"b={b}", "public-api", "short-reads", "zoom-then-main"] + (["names-descending"] if desc else [])
         # degenerate: no sections at all (empty index)
         yield sx([2, 1, 0, [], [[0, 0, 10]]]), ["empty"]
 
